@@ -78,6 +78,42 @@ func checkC12(c *Ctx) {
 			c.Bad("R1", "hand-option:"+k, p.Pos(startFn.Pos()), "hand option "+k+" is never set from the blind level")
 		}
 	}
+	// … and the options object that received them is the one the hand is created with: a later
+	// "opts = <fresh options>" (for one table rule, say) would silently discard the level's blinds
+	{
+		var optsArg ssa.Value
+		for _, ci := range Calls(startFn) {
+			for _, a := range ci.Common().Args {
+				if typeShort(a.Type()) == "*pokerface.GameOptions" && ci.Common().StaticCallee() != nil && p.IsRepoFunc(ci.Common().StaticCallee()) {
+					optsArg = a
+				}
+			}
+		}
+		if optsArg == nil {
+			c.Bad("R1", "hand-option:same-object", p.Pos(startFn.Pos()), "the options the hand is created with were not found")
+		} else {
+			n := 0
+			for _, b := range startFn.Blocks {
+				for _, in := range b.Instrs {
+					st, ok := in.(*ssa.Store)
+					if !ok {
+						continue
+					}
+					fa, ok := st.Addr.(*ssa.FieldAddr)
+					if !ok || typeShort(fa.X.Type()) != "*pokerface.GameOptions" {
+						continue
+					}
+					fld := fa.X.Type().Underlying().(*types.Pointer).Elem().Underlying().(*types.Struct).Field(fa.Field).Name()
+					if fld != "Ante" && fld != "Blind" {
+						continue
+					}
+					n++
+					c.Check(fa.X == optsArg, "R1", "hand-option:same-object:"+fld, p.InstrPos(in), "stored into the options object the hand is created with", "the level's "+fld+" is stored into an options object that is not (on every path) the one handed to the new hand: "+p.Sym(optsArg).Strip().String())
+				}
+			}
+			c.Min("R1", "ante / blind stores into the hand options", n, 2)
+		}
+	}
 	// published hand blinds
 	var gbsStores []*StoreSite
 	for _, ss := range p.FieldStores("TableState", "GameBlindState") {
